@@ -320,8 +320,12 @@ theorem c02_harness_comparators_total :
 — and `cmpHalf` is not a total-order comparator, so the `…_weak` theorems are what covers it. -/
 theorem c02_harness_comparators_weak :
     WeakCmp cmpHalf ∧ WeakCmp cmpLenOnly ∧ WeakCmp cmpHalfDiff ∧ ¬ TotalCmp cmpHalf ∧
-    (∀ {K : Type} {cmp : K → K → Int}, WeakCmp cmp → WeakCmp (fun a b => cmp b a)) :=
-  ⟨cmpHalf_weak, cmpLenOnly_weak, cmpHalfDiff_weak, cmpHalf_not_total, fun h => h.reverse⟩
+    (∀ {K : Type} {cmp : K → K → Int}, WeakCmp cmp → WeakCmp (fun a b => cmp b a)) ∧
+    -- type matrix: float64 keys under `<`/`==` (the sign of zero is ignored: weak, not total),
+    -- struct keys (lexicographic: total; first field only: weak), case-insensitive strings (weak)
+    WeakCmp cmpF64 ∧ ¬ TotalCmp cmpF64 ∧ TotalCmp cmpPairLex ∧ WeakCmp cmpPairFirst ∧ WeakCmp cmpFold :=
+  ⟨cmpHalf_weak, cmpLenOnly_weak, cmpHalfDiff_weak, cmpHalf_not_total, fun h => h.reverse,
+    cmpF64_weak, cmpF64_not_total, cmpPairLex_total, cmpPairFirst_weak, cmpFold_weak⟩
 
 /-- What the hand-written model takes from the source text, re-extracted from /repo by go/ast
 on every run (`Golib/Gen/FactsC02.lean`): the level constant and the two masks, the body of
